@@ -1,0 +1,15 @@
+//go:build !verif
+
+// Package verifhook provides verification hook points.
+//
+// Without the "verif" build tag all functions are empty and inlined away.
+package verifhook
+
+// Enabled reports whether hooks are compiled in.
+const Enabled = false
+
+// Point marks a named point in the code.
+func Point(name string) {}
+
+// Event reports a named event with arguments.
+func Event(name string, args ...any) {}
